@@ -151,6 +151,17 @@ func (g *popgen) message(md protoreflect.MessageDescriptor, path string, depth, 
 			continue
 		}
 		if f.IsList() {
+			// string-like lists now and then carry an extension on one entry and a value-less entry
+			// (JSON null in the value array, the element living in the parallel "_name" array)
+			if md := f.Message(); len(vals) >= 2 && !hasExt && (g.count+g.o.Inst)%5 == 0 {
+				if ty, kind := FHIRTypeOf(md); kind == "prim" && (ty == "string" || ty == "uri" || ty == "markdown" || ty == "id") {
+					exts = make([]any, len(vals))
+					exts[0] = map[string]any{"extension": []any{map[string]any{"url": "http://example.org/prim-ext", "valueString": "px0"}}}
+					vals[len(vals)-1] = nil
+					exts[len(vals)-1] = map[string]any{"extension": []any{map[string]any{"url": "http://example.org/prim-ext", "valueString": "novalue"}}}
+					hasExt = true
+				}
+			}
 			obj[jsonName] = vals
 			if hasExt {
 				obj["_"+jsonName] = exts
